@@ -9,12 +9,17 @@ id="$1"; k="$2"; ddir="$3"; shift 3
 extra="$*"
 src=/tmp/seed/out-$id
 out=/verif/seeded/$id/$k
+if [ "${SEED_ROUND:-1}" != 1 ]; then
+  # later rounds: /tmp/seed/out<round>-<id>/patch<k>.diff -> /verif/seeded/<id>/r<round>-<k>/
+  src=/tmp/seed/out${SEED_ROUND}-$id
+  out=/verif/seeded/$id/r${SEED_ROUND}-$k
+fi
 mkdir -p "$out"
 cp "$src/patch$k.diff" "$out/patch.diff"
 demo=$(ls "$src"/demo${k}_test.go 2>/dev/null || ls "$src"/demo$k/*.go 2>/dev/null | head -1)
 cp "$demo" "$out/"
 [ -f "$src/meta$k.json" ] && cp "$src/meta$k.json" "$out/agent_meta.json"
-wt=/tmp/seedconf/$id-$k
+wt=/tmp/seedconf/$id-r${SEED_ROUND:-1}-$k
 export GOFLAGS=-mod=mod GOPROXY=off
 rm -rf "$wt"; git -C /repo worktree prune; git -C /repo worktree add -q --detach "$wt" HEAD || exit 2
 log="$out/confirm.log"; : > "$log"
